@@ -95,4 +95,11 @@ theorem C16_tree :
 example : agents.length = 9 := by decide
 example : documented "amp" = some (".agents/skills/", "~/.config/agents/skills/") := by decide
 
+/-- **The documented locations depend on `$HOME` and the working directory only.**  The regenerated list of reads of the
+    process environment in `internal/llmsetup` is exactly the home directory (for `--user`) and the working directory
+    (for project installs and relative `--path`): no `XDG_*`, `APPDATA` or tool-specific variable can redirect an
+    installation. -/
+theorem C16_environment_reads :
+    llmsetupEnvReads = ["path.go:resolveProjectPath:os.Getwd()", "path.go:resolveUserPath:os.UserHomeDir()"] := by decide
+
 end C16
